@@ -18,6 +18,9 @@ CHECKS = {
             "byte for byte over all 2^64 values; per-length maxima, injectivity and length monotonicity over all pairs.", "3 C04"),
     "C05": ("Bounded model checking over all pairs of 64-bit values and all pairs of 2- and 3-tuples: sign(memcmp) == sign(tuple "
             "compare), equal values identical bytes, prefix-freeness.", "3 C05"),
+    "C07": ("Bounded model checking of varintFloatEncode/Decode/EncodeAuto/Decompose/Compose on symbolic IEEE-754 bit patterns with an "
+            "exact integer-arithmetic oracle (bit equality in FULL, |out-in| <= |in| 2^-k otherwise, specials exact), all 4 precisions x 3 "
+            "exponent modes, arrays of 1-2 (quick) and up to 4 (thorough) fully symbolic doubles.", "3 C07"),
     "C09": ("Bounded model checking of every generated packed-array instantiation (bit widths 1..32 x slot types x default/compact/"
             "micro-promotion, filtered by the two-slot rule): Set/Get/SetIncr/SetHalf bit-level isolation and access footprint on "
             "exact-size storage with symbolic index, value and contents; sorted insert/delete/member/search as one inductive step "
